@@ -96,6 +96,11 @@ def run(chk):
                         gq = sorted((D.version_key(o) for o in st.query([Filter('type', '=', t)])), key=repr)
                         wq = sorted((k for k in model.items if k[0].startswith(t + '--')), key=repr)
                         if gq != wq: return (f'{sname}#query == stored objects satisfying it', f'{[(labels[i], f) for i, f in hist]}: {sname}.query(type={t}) = {gq}, list model {wq}', {})
+                        # the complement, and the same for a name that is a proper prefix of the type's name (malware / malware-analysis): names are compared whole
+                        for tt in (t, t[:-1], t.rsplit('-', 1)[0]):
+                            gq = sorted((D.version_key(o) for o in st.query([Filter('type', '!=', tt)])), key=repr)
+                            wq = sorted((k for k in model.items if k[0].split('--')[0] != tt), key=repr)
+                            if gq != wq: return (f'{sname}#query == stored objects satisfying it', f'{[(labels[i], f) for i, f in hist]}: {sname}.query(type != {tt}) = {gq}, list model {wq}', {})
                 # the two stores give the same answer to filters on defaulted properties and on timestamps in another spelling (whatever the files look like)
                 for f in (Filter('type', '>', 'identity'), Filter('type', '<=', 'identity'), Filter('type', 'contains', 'dent'), Filter('type', '<', 'j'), Filter('id', 'contains', '0001-'), Filter('id', '>', 'identity--00000001'),
                           Filter('id', '<=', 'identity--00000002-0000-4000-8000-000000000000'), Filter('id', '!=', 'identity--00000001-0000-4000-8000-000000000000'), Filter('type', '!=', 'identity'),
@@ -192,6 +197,46 @@ def run(chk):
                 if D.text_instant(other) != D.text_instant(text):
                     return ('filesystem#file name injective on distinct instants', f'{text} and {other} map to the same file name {name}', {})
         chk.bounded('file names of distinct instants differ', list(fn_cases()), fn_check, classify=repr, bound='5 years (1..9999) x 12 microsecond patterns x 3 seconds x 3 precision settings')
+        # ---- one add call carrying several objects, some of which the store already holds: when the call returns normally every object it carried is in the store
+        # (a refusal -- the filesystem sink's documented answer to an identical (id, modified) -- claims nothing); lists holding bundles, bundles holding duplicates
+        def multi_cases():
+            v = [byl[l] for l in ('id1.v1', 'id1.v2', 'id1.v3', 'id2.v1')]
+            B = lambda *objs: {'type': 'bundle', 'id': 'bundle--' + D.U(98), 'objects': [dict(o) for o in objs]}
+            payloads = {'list [old, new]': lambda: [dict(v[0]), dict(v[1])], 'list [new, old, new]': lambda: [dict(v[1]), dict(v[0]), dict(v[2])],
+                        'bundle {old, new}': lambda: B(v[0], v[1]), 'list [bundle {old, new}]': lambda: [B(v[0], v[1])], 'list [bundle {old, new, new}]': lambda: [B(v[0], v[1], v[2])],
+                        'list [bundle {new, old, new}, new]': lambda: [B(v[1], v[0], v[2]), dict(v[3])], 'list [new, bundle {old, new}]': lambda: [dict(v[3]), B(v[0], v[1])],
+                        'list [bundle {old}, bundle {new}]': lambda: [B(v[0]), dict(B(v[1]), id='bundle--' + D.U(97))],
+                        'list [old, old]': lambda: [dict(v[0]), dict(v[0])], 'list [new, new]': lambda: [dict(v[1]), dict(v[1])]}
+            for sname in ('memory', 'filesystem'):
+                for pre in ((), (0,), (0, 1)):
+                    for pname, mk in payloads.items(): yield (sname, pre, pname, mk)
+
+        def carried(payload):
+            if isinstance(payload, str): payload = json.loads(payload)
+            if isinstance(payload, list): return [o for x in payload for o in carried(x)]
+            if payload.get('type') == 'bundle': return [o for x in payload.get('objects', []) for o in carried(x)]
+            return [payload]
+
+        def multi_check(case):
+            sname, pre, pname, mk = case
+            n_hist[0] += 1
+            root = os.path.join(tmp, f'm{n_hist[0]}'); os.makedirs(root)
+            st = MemoryStore(allow_custom=True) if sname == 'memory' else FileSystemStore(root, allow_custom=True)
+            v = [byl[l] for l in ('id1.v1', 'id1.v2', 'id1.v3', 'id2.v1')]
+            try:
+                for i in pre: st.add(dict(v[i]))
+                payload = mk()
+                if sname == 'filesystem' and isinstance(payload, str): payload = json.loads(payload)      # (the filesystem sink documents dictionaries and objects)
+                try: st.add(payload)
+                except Exception as ex:
+                    if type(ex).__name__ in ('DataSourceError',): return None          # refusal: nothing claimed
+                    raise
+                want = {D.version_key(o) for o in carried(payload)} | {D.version_key(v[i]) for i in pre}
+                got = {D.version_key(o) for oid in {k[0] for k in want} for o in st.source.all_versions(oid)}
+                if got != want: return (f'{sname}#an add that returns normally has stored everything it carried', f'{sname} holding {[("id1.v1", "id1.v2")[i] for i in pre]}: add({pname}) returned normally, store holds {sorted(got, key=repr)}, carried + held before {sorted(want, key=repr)}', {})
+            finally: shutil.rmtree(root, ignore_errors=True)
+        chk.bounded('one add call carrying several objects, some already stored', list(multi_cases()), multi_check, classify=lambda c: (c[0], c[1], c[2]),
+                    bound='2 stores x 3 prior contents x 10 payload shapes (lists, bundles, bundles inside lists; duplicates of stored and of carried versions)')
         # known finding: dictionary-kept custom objects compare timestamps as text
         ms = MemoryStore(allow_custom=True)
         u = {'type': 'x-vf-unreg2', 'spec_version': '2.1', 'id': 'x-vf-unreg2--' + D.U(9), 'created': '2020-01-01T00:00:00Z', 'modified': '2020-01-01T00:00:00Z'}
